@@ -7,5 +7,5 @@ cd "$(dirname "$0")"
 export GOFLAGS=-mod=mod GOPROXY=off GOSUMDB=off GOTOOLCHAIN=local CGO_ENABLED=0
 mkdir -p bin evidence replays
 go build -tags verif -o bin/check ./cmd/check
-go test -count=1 ./ref/ ./sim/ ./link/
+go test -count=1 ./ref/ ./xval/
 echo "setup ok"
